@@ -60,11 +60,10 @@ top:
 					result = tr.Result
 					break top
 				}
-				if s.Block {
-					result = tr
-					break top
-				}
-				// slip.ErrorPanic(s, depth, "return from unknown block: %s", tr.Tag)
+				// return-from made sure a block with that name encloses
+				// this form.
+				result = tr
+				break top
 			}
 			// Anything other than ReturnResult continues.
 		}
